@@ -181,7 +181,7 @@ func TestC10_KDC(t *testing.T) {
 	ts.Start()
 	defer ts.Close()
 	runProp(t, "C10_KDC", func(t *rapid.T) c10Kdc {
-		c := c10Kdc{Method: "POST", Kind: rapid.SampledFrom([]string{"valid-short", "valid-empty", "huge-declared", "indefinite", "trailing", "nested-deep", "noise", "byte-flip", "truncated", "wrong-tags", "neg-int"}).Draw(t, "kind")}
+		c := c10Kdc{Method: "POST", Kind: rapid.SampledFrom([]string{"valid-short", "valid-empty", "prefix-lie", "prefix-lie", "huge-declared", "indefinite", "trailing", "nested-deep", "noise", "byte-flip", "truncated", "wrong-tags", "neg-int"}).Draw(t, "kind")}
 		msg := rapid.SliceOfN(rapid.Byte(), 0, 40).Draw(t, "msg")
 		good := kdc.EncodeProxyMessage(append([]byte{0, 0, 0, byte(len(msg))}, msg...), rapid.SampledFrom([]string{"", "EXAMPLE.COM", "X"}).Draw(t, "realm"), false)
 		switch c.Kind {
@@ -189,6 +189,14 @@ func TestC10_KDC(t *testing.T) {
 			c.Body = kdc.EncodeProxyMessage(msg[:len(msg)%5], "", false)
 		case "valid-empty":
 			c.Body = kdc.EncodeProxyMessage(nil, "", false)
+		case "prefix-lie":
+			// well-formed DER, known realm, but the four-byte length prefix of the Kerberos message does not say its length
+			pfx := rapid.SampledFrom([]uint32{0, 1, 3, 4, 5, uint32(len(msg)) + 1, uint32(len(msg)) + 4, uint32(len(msg)) + 5, 0xffff, 0x10000, 0x7fffffff, 0x80000000,
+				0xfffffff0, 0xfffffffb, 0xfffffffc, 0xfffffffd, 0xfffffffe, 0xffffffff}).Draw(t, "prefix")
+			if rapid.IntRange(0, 3).Draw(t, "anyPrefix") == 0 {
+				pfx = rapid.Uint32().Draw(t, "prefixAny")
+			}
+			c.Body = kdc.EncodeProxyMessage(append(binary.BigEndian.AppendUint32(nil, pfx), msg...), rapid.SampledFrom([]string{"", "EXAMPLE.COM"}).Draw(t, "realm2"), false)
 		case "huge-declared":
 			c.Body = append([]byte{0x30, 0x84, 0x7f, 0xff, 0xff, 0xff}, good[2:]...)
 		case "indefinite":
